@@ -165,6 +165,19 @@ fn run_matrix(ctx: &mut Ctx, rng: &mut Rng, index: u64, seg_class: u8) {
     let no_body = method == "HEAD" || (100..200).contains(&status) || status == 204 || status == 304;
     // "whatever its headers say": a bodiless response may also repeat the content coding of the
     // entity it talks about (a 304 for a gzip-coded resource); the empty body stays readable
+    let mut coded_body: Option<&'static [u8]> = None;
+    if !no_body && clv == ClVerdict::Invalid && tev == TeVerdict::NoChunked && index % 2 == 1 {
+        // an unusable Content-Length stays unusable when the body is declared gzip/deflate-coded
+        // (the body IS a valid stream of that coding: only the length is wrong)
+        if index % 4 == 1 {
+            lines.push("Content-Encoding: gzip");
+            coded_body = Some(b"\x1f\x8b\x08\x00\x00\x00\x00\x00\x02\x03\xf3\x70\xf5\xf1\xf1\x07\x00\x36\x64\x44\xc1\x05\x00\x00\x00");
+        } else {
+            lines.push("Content-Encoding: deflate");
+            coded_body = Some(b"\xf3\x70\xf5\xf1\xf1\x07\x00");
+        }
+        ctx.count("invalid_lengths_next_to_a_content_coding", 1);
+    }
     if no_body {
         match index % 4 {
             1 => lines.push("Content-Encoding: gzip"),
@@ -182,8 +195,8 @@ fn run_matrix(ctx: &mut Ctx, rng: &mut Rng, index: u64, seg_class: u8) {
     }
     wire.extend_from_slice(b"\r\n");
     let head_len = wire.len();
-    wire.extend_from_slice(CHUNKED_BODY);
-    if extra {
+    wire.extend_from_slice(coded_body.unwrap_or(CHUNKED_BODY));
+    if extra && coded_body.is_none() {
         wire.extend_from_slice(EXTRA);
     }
     let body_wire = wire[head_len..].to_vec();
